@@ -758,3 +758,12 @@ def run(ctx, standalone=False):
             violate(c, {"kind": "harness", "class": "import transcript"}, "transcript not understood: %r %r" % (e, ls[:3]))
     ctx.extra["yaml_import_outcomes"] = pstats
     ctx.extra["yaml_inputs"] = len(pin)
+
+    # ---- failure atomicity and error class of the importers (fixes DO90, DO91): the same texts - mutation, truncation,
+    # alias and invalid-key streams - plus directed / generated ones; the root after a FAILED import is compared with
+    # the root before (digest through the public getters), with and without prior content, with every allocation
+    # request of an import failing once, and as property sub-trees of a calibration file (lib/yaml_atomic_lib.py)
+    import yaml_atomic_lib
+    ctx.coq_obligations(["PropTree/YamlFault.v", "PropTree/YamlFaultProofs.v", "PropTree/YamlFaultTie.v",
+                         "CalFile/CalLoadErrClass.v"])
+    yaml_atomic_lib.run(ctx, "C09cal", extra_texts=[b for fam, b in pin], thorough=thorough)
